@@ -538,6 +538,7 @@ void executeRun(const Desc& d, Obs& o) {
     PS.pipeFd[0] = PS.pipeFd[1] = -1;
     if (d.pi("separate") && !d.pi("synthetic")) { if (pipe(PS.pipeFd) == 0) { fcntl(PS.pipeFd[0], F_SETFL, O_NONBLOCK); } else PS.pipeFd[0] = PS.pipeFd[1] = -1; }
     simIO().flushHook = childFlushHook;
+    simIO().errnoNoise = (int)d.pi("errno_noise", 0); if (simIO().errnoNoise) fired("console_write_leaves_errno");
     PS.parentFlushPos = 0;
     PS.inChild = false; PS.synthetic = d.pi("synthetic") != 0; PS.nextFake = 0; PS.livePids.clear(); PS.script.clear(); PS.pos = 0; PS.eintrLeft = -1; PS.test = -1;
 
